@@ -458,7 +458,7 @@ def _dominated(e, parents, subj, fn):
             preds = dtree.conj(c[0], {})
             if len(c) > 1 and c[1] is child and 'VALID(%s)' % subj in preds:
                 return True, 'dominated by `%s`' % src(c[0])[:60]
-            if len(c) > 2 and c[2] is child and '!VALID(%s)' % subj in preds and len(preds) == 1:
+            if len(c) > 2 and c[2] is child and 'VALID(%s)' % subj in dtree.conj(c[0], {}, False):
                 return True, 'else-branch of `%s`' % src(c[0])[:60]
             # && short circuit inside the condition itself
             if c[0] is child or any(y is e for y in walk(c[0])):
